@@ -8,6 +8,7 @@ import (
 	"go/ast"
 	"go/token"
 	"go/types"
+	"sort"
 	"strings"
 
 	"golang.org/x/tools/go/ssa"
@@ -158,15 +159,30 @@ func (fc *fnCtx) callOrdinal(callee *ssa.Function) string {
 	return fmt.Sprintf("%s@%d", name, t.callOrd[name])
 }
 
+func (fc *fnCtx) invokeSiteAsserts(st *State, name string, recv Val, args []Val) {
+	if fc.inline || fc.specMode || fc.contract == nil {
+		return
+	}
+	t := fc.top
+	t.callOrd[name]++
+	all := append([]Val{recv}, args...)
+	fc.siteAsserts(st, name, fmt.Sprintf("%s@%d", name, t.callOrd[name]), all)
+}
+
 func (fc *fnCtx) callSiteAsserts(st *State, callee *ssa.Function, ordKey string, args []Val) {
 	if fc.inline || fc.specMode || fc.contract == nil {
 		return
 	}
-	k := fc.top.callOrd[callee.Name()]
-	for _, cs := range fc.contract.Calls {
-		if cs.Callee != callee.Name() || (cs.K != 0 && cs.K != k) {
+	fc.siteAsserts(st, callee.Name(), ordKey, args)
+}
+
+func (fc *fnCtx) siteAsserts(st *State, name, ordKey string, args []Val) {
+	k := fc.top.callOrd[name]
+	for ci, cs := range fc.contract.Calls {
+		if cs.Callee != name || (cs.K != 0 && cs.K != k) {
 			continue
 		}
+		fc.top.boundCalls[ci] = true
 		extra := map[string]Val{}
 		for i, a := range args {
 			extra[fmt.Sprintf("arg%d", i)] = a
@@ -180,6 +196,36 @@ func (fc *fnCtx) callSiteAsserts(st *State, callee *ssa.Function, ordKey string,
 		fc.oblige(st, "call-assert", "call-"+ordKey+"-assert", g, "call-site assertion: "+cs.Assert.Text, token.NoPos, true)
 		fc.assume(st, g)
 	}
+}
+
+// unboundClauses lists contract clauses that did not attach to anything in the code.
+func (fc *fnCtx) unboundClauses() []string {
+	c := fc.contract
+	if c == nil {
+		return nil
+	}
+	var out []string
+	for i, cs := range c.Calls {
+		if !fc.boundCalls[i] {
+			out = append(out, fmt.Sprintf("%s:%d: `call %s#%d assert` binds to no call site", strings.TrimPrefix(c.File, fc.eng.repo+"/"), cs.Assert.Line, cs.Callee, cs.K))
+		}
+	}
+	for i, as := range c.Afters {
+		if !fc.boundAfters[i] {
+			out = append(out, fmt.Sprintf("%s:%d: `assert after %s#%d` binds to no assignment", strings.TrimPrefix(c.File, fc.eng.repo+"/"), as.Assert.Line, as.Var, as.K))
+		}
+	}
+	have := map[int]bool{}
+	for _, li := range fc.loopInfo {
+		have[li.ordinal] = true
+	}
+	for k := range c.Loops {
+		if !have[k] {
+			out = append(out, fmt.Sprintf("%s:%d: `loop %d` clauses bind to no loop of the function", strings.TrimPrefix(c.File, fc.eng.repo+"/"), c.Line, k))
+		}
+	}
+	sort.Strings(out)
+	return out
 }
 
 // paramNames returns receiver+parameter names of a function.
@@ -216,7 +262,24 @@ func resultNames(sig *types.Signature) []string {
 }
 
 func (fc *fnCtx) contractEnv(st *State, old *State, callee *ssa.Function, args []Val, results []Val) *SpecEnv {
-	env := &SpecEnv{fc: fc, st: st, old: old, vars: map[string]Val{}, bound: map[string]Val{}, pkg: callee.Package()}
+	env := &SpecEnv{fc: fc, st: st, old: old, vars: map[string]Val{}, bound: map[string]Val{}, pkg: callee.Package(), lets: letsOf(fc.eng.contractFor(callee))}
+	if results != nil {
+		// locals of the callee named in its ensures clauses are existential witnesses here
+		wit := map[string]Val{}
+		env.ghost = func(name string) (Val, bool) {
+			if v, ok := wit[name]; ok {
+				return v, true
+			}
+			a := calleeLocal(callee, name)
+			if a == nil {
+				return Val{}, false
+			}
+			et := a.Type().(*types.Pointer).Elem()
+			v := fc.freshVal(st, "wit."+name, et)
+			wit[name] = v
+			return v, true
+		}
+	}
 	names := paramNames(callee)
 	for i, n := range names {
 		if i < len(args) {
@@ -418,6 +481,22 @@ func (fc *fnCtx) modLocs(env *SpecEnv, item string) ([]modLoc, error) {
 		return []modLoc{{heap: hn, sort: hs, elemSort: ss.fsorts[index[0]], ref: v.T, ty: ss.ftypes[index[0]]}}, nil
 	}
 	return nil, fmt.Errorf("unsupported modifies item %q", item)
+}
+
+// calleeLocal finds the unique local variable of fn with the given source name.
+func calleeLocal(fn *ssa.Function, name string) *ssa.Alloc {
+	var found *ssa.Alloc
+	for _, b := range fn.Blocks {
+		for _, ins := range b.Instrs {
+			if a, ok := ins.(*ssa.Alloc); ok && a.Comment == name {
+				if found != nil {
+					return nil // ambiguous
+				}
+				found = a
+			}
+		}
+	}
+	return found
 }
 
 // inlineCode executes callee's body in place (loop-free callees only).
@@ -708,9 +787,10 @@ func (fc *fnCtx) execAppend(st *State, x *ssa.Call) {
 
 func (fc *fnCtx) execInvoke(st *State, x *ssa.Call, recv Val, args []Val) {
 	m := x.Call.Method
+	fc.invokeSiteAsserts(st, m.Name(), recv, args)
 	// assumed contract on the interface method, keyed "(pkg.Iface).Method"
 	key := "(" + typeKey(x.Call.Value.Type()) + ")." + m.Name()
-	if c := fc.eng.ifaceContracts[key]; c != nil {
+	if c := fc.eng.ifaceContract(x.Call.Value.Type(), m.Name()); c != nil {
 		fc.top.externsUsed[key] = true
 		fc.oblige(st, "nil", "", not(eq("(if.tag "+recv.T+")", "0")), "method call on nil interface", x.Pos(), false)
 		fc.assume(st, not(eq("(if.tag "+recv.T+")", "0")))
@@ -722,9 +802,37 @@ func (fc *fnCtx) execInvoke(st *State, x *ssa.Call, recv Val, args []Val) {
 	fc.unknownCall(st, x, "interface method "+key)
 }
 
+// ifaceApp is the uninterpreted function standing for a pure interface method.
+func (fc *fnCtx) ifaceApp(recv Val, method string, args []Val, rt types.Type) Val {
+	name := "ifn." + sanitize(typeKey(recv.Ty)+"."+method)
+	srts := []string{"Iface"}
+	ts := []string{recv.T}
+	for _, a := range args {
+		srts = append(srts, fc.S().SortOf(a.Ty))
+		ts = append(ts, a.T)
+	}
+	fc.S().UFun(name, srts, fc.S().SortOf(rt))
+	return Val{T: app(name, ts...), Ty: rt}
+}
+
+// ifaceContract finds the assumed contract of an interface method; a key ending in
+// `*` matches by prefix, e.g. (properties.ElementStyle).Get*.
+func (eng *Engine) ifaceContract(t types.Type, method string) *Contract {
+	key := "(" + typeKey(t) + ")." + method
+	if c := eng.ifaceContracts[key]; c != nil {
+		return c
+	}
+	for k, c := range eng.ifaceContracts {
+		if strings.HasSuffix(k, "*") && strings.HasPrefix(key, strings.TrimSuffix(k, "*")) {
+			return c
+		}
+	}
+	return nil
+}
+
 func (fc *fnCtx) applyIfaceContract(st *State, x *ssa.Call, c *Contract, recv Val, args []Val) []Val {
 	sig := x.Call.Method.Type().(*types.Signature)
-	env := &SpecEnv{fc: fc, st: st, vars: map[string]Val{"self": recv}, bound: map[string]Val{}, pkg: fc.fn.Package()}
+	env := &SpecEnv{fc: fc, st: st, vars: map[string]Val{"self": recv}, bound: map[string]Val{}, pkg: fc.fn.Package(), lets: letsOf(c)}
 	for i, a := range args {
 		n := sig.Params().At(i).Name()
 		if n != "" {
@@ -744,16 +852,9 @@ func (fc *fnCtx) applyIfaceContract(st *State, x *ssa.Call, c *Contract, recv Va
 	var results []Val
 	if c.Pure && sig.Results().Len() == 1 {
 		// deterministic function of the receiver, the arguments (and the heap, ignored: assumed immutable facts)
-		name := "ifn." + sanitize(typeKey(x.Call.Value.Type())+"."+x.Call.Method.Name())
-		srts := []string{"Iface"}
-		ts := []string{recv.T}
-		for _, a := range args {
-			srts = append(srts, fc.S().SortOf(a.Ty))
-			ts = append(ts, a.T)
-		}
 		rt := sig.Results().At(0).Type()
-		fc.S().UFun(name, srts, fc.S().SortOf(rt))
-		r := Val{T: fc.defs.Define(x.Name(), fc.S().SortOf(rt), app(name, ts...)), Ty: rt}
+		app1 := fc.ifaceApp(recv, x.Call.Method.Name(), args, rt)
+		r := Val{T: fc.defs.Define(x.Name(), fc.S().SortOf(rt), app1.T), Ty: rt}
 		fc.assume(st, fc.S().RangeFact(rt, r.T, 1))
 		results = []Val{r}
 	} else {
